@@ -1,6 +1,7 @@
 import KitModel.Go.Prelude
 import KitModel.CronSched
 import KitModel.CronSchedAccept
+import KitModel.CronChain
 /-!
 Driver for property C05: `kitdrv C05` reads the observable trace of one execution of the real
 `cron.Cron` (one event per line) and answers, per line, whether the model
@@ -137,7 +138,68 @@ def handle (sim : Sim) (raw : String) : Sim × String :=
        (if ln.op == "entries" then s!" model-entries={" / ".intercalate (before.map fun s => showSnapshot (snapshotOf s))}" else ""))
     | some ss => ({ sim with states := ss }, s!"ok n={ss.length}")
 
-def main (_args : List String) : IO UInt32 := do
-  lineLoop handle ({} : Sim)
+/-! ### `kitdrv C05 chain`: traces of the job wrappers of cron/chain.go
+
+Lines: `chain kind=<skip|delay|recover> t0=<n>` | `call` | `begin` | `release b=<n> panic=<0|1>` |
+`ret i=<n> panic=<0|1>` | `advance t=<n>` | `logs skip=<n> delay=<n> panic=<n>` | `settled` | `end`. -/
+namespace Chain
+open Kit.CronChain
+
+structure CSim where
+  states : List Kit.CronChain.State := []
+  dead : Bool := true
+
+def showIPc : IPc → String
+  | .called t => s!"called@{t}" | .running b => s!"running#{b}" | .returned => "returned"
+  | .skipped => "skipped" | .panicked => "panicked"
+
+def showCState (s : Kit.CronChain.State) : String :=
+  s!"[clk={s.clock} free={s.free} invs={",".intercalate (s.invs.map showIPc)} logs={s.skipLogs}/{s.delayLogs}/{s.panicLogs}]"
+
+def handle (sim : CSim) (raw : String) : CSim × String :=
+  let ln := parseLine raw
+  if ln.op == "chain" then
+    let k : Option Kind := match ln.get? "kind" with
+      | some "skip" => some .skip | some "delay" => some .delay | some "recover" => some .recover
+      | _ => none
+    match k, ln.nat? "t0" with
+    | some k, some t0 => ({ states := [Kit.CronChain.init k t0], dead := false }, "ok n=1")
+    | _, _ => ({ states := [], dead := true }, "reject bad-chain-line")
+  else if sim.dead then (sim, "skip")
+  else
+    let obs : Option Kit.CronChain.Obs :=
+      match ln.op with
+      | "call" => some .call
+      | "begin" => some .begin
+      | "release" =>
+        match ln.nat? "b", ln.nat? "panic" with
+        | some b, some p => some (.release b (p == 1))
+        | _, _ => none
+      | "ret" =>
+        match ln.nat? "i", ln.nat? "panic" with
+        | some i, some p => some (.ret i (p == 1))
+        | _, _ => none
+      | "advance" => (ln.nat? "t").map .advance
+      | "logs" =>
+        match ln.nat? "skip", ln.nat? "delay", ln.nat? "panic" with
+        | some a, some b, some c => some (.logs a b c)
+        | _, _, _ => none
+      | "settled" => some .settled
+      | _ => none
+    if ln.op == "end" then (sim, s!"ok n={sim.states.length}")
+    else match obs with
+    | none => ({ states := [], dead := true }, s!"reject unparsable-line {raw.trimAscii.toString}")
+    | some o =>
+      match Kit.CronChain.acceptStep sim.states o with
+      | [] => ({ states := [], dead := true },
+          s!"reject no-model-state-accepts event={raw.trimAscii.toString} before={" | ".intercalate ((sim.states.take 4).map showCState)}")
+      | ss => ({ states := ss, dead := false }, s!"ok n={ss.length}")
+
+end Chain
+
+def main (args : List String) : IO UInt32 := do
+  match args with
+  | "chain" :: _ => lineLoop Chain.handle ({} : Chain.CSim)
+  | _ => lineLoop handle ({} : Sim)
   return 0
 end Driver.C05
